@@ -166,6 +166,19 @@ def check_doc(R, M, case, prop, reused=None):
             M.violation("C03.ast", {"what": "AST differs from the document the text was rendered from",
                                     "first_differences": [(p, short(a, 120), short(b, 120)) for p, a, b in df[:3]],
                                     "n_differences": len(df)}, case, mechanism=D3 if d3 else None)
+        if M.cases % 3 == 0 and dd == "en":
+            # the AST as a consumer of the stream sees it: all envelopes collected first (the compiler has run on the very
+            # document object by then), then the gherkinDocument envelope compared with the document the text was made from
+            st, envs, opened, _ = observe.enum_observed(R.text, uri="u.feature")
+            M.count("C03.stream_ast_comparisons")
+            if st == "ok":
+                docs = [e["gherkinDocument"] for e in envs if "gherkinDocument" in e]
+                if len(docs) == 1:
+                    got2 = strip({k: v for k, v in docs[0].items() if k != "uri"}, ids=True, locations=True)
+                    df2 = docmodel.diff(want, got2)
+                    if df2 and not df:
+                        M.violation("C03.ast", {"what": "the gherkinDocument envelope, read after the whole stream of the source was collected, differs from the document the text was rendered from (the parse result itself did not)",
+                                                "first_differences": [(p, short(a, 120), short(b, 120)) for p, a, b in df2[:3]]}, case)
         inv = nothing_invented(o.ast, R.text)
         M.count("G9.evaluated")
         if inv:
